@@ -1543,7 +1543,15 @@ def execute(spec, options, sched_mode=None, knobs=None, defaults=None, label='ma
         defaults, options = _W.split_defaults(list(options),
                                               random.Random(knobs['defaults_split']))
         defaults = defaults or None
-    args = [CHILD_SCRIPT] + list(options)
+    script = CHILD_SCRIPT
+    if knobs.get('script_link') and _Wm.LAST_ROOT and os.path.isdir(_Wm.LAST_ROOT):
+        # the runner script was started through a symbolic link (a shared runtests script
+        # linked into a working copy): the children must be started through the same path
+        script = os.path.join(os.path.dirname(_Wm.LAST_ROOT.rstrip(os.sep)), 'runtests')
+        if not os.path.islink(script):
+            os.symlink(CHILD_SCRIPT, script)
+    env.script_parts = [script]
+    args = [script] + list(options)
     for a in list(defaults or []):
         if a.startswith('-j'):
             try:
@@ -1568,7 +1576,7 @@ def execute(spec, options, sched_mode=None, knobs=None, defaults=None, label='ma
             if found_suites is not None:
                 # the documented seam for feeding suites without a source tree
                 runner = RecordingRunner(defaults, list(args), found_suites=found_suites,
-                                         script_parts=[CHILD_SCRIPT], cwd=os.getcwd())
+                                         script_parts=[script], cwd=os.getcwd())
                 runner.run()
                 res.verdict = runner.failed
             else:
